@@ -369,7 +369,7 @@ def run_case(case, seed):
         if not meta["ok"]:
             return {"ok": False, "key": f"premise:{case['model']}",
                     "detail": f"model is not symmetric / group mismatch: {meta}"}
-        return {"ok": True, "nontrivial": ("premise", case["model"]), "obs": {k: meta[k] for k in ("worst", "group_size")}}
+        return {"ok": True, "nontrivial": ("premise", case["model"]), "obs": {"premise_worst": meta["worst"], "group_size": meta["group_size"]}}
     if not meta["ok"]:
         return {"ok": True, "nontrivial": False, "obs": "premise failed (reported by the premise case)"}
     tmp = tempfile.mkdtemp(prefix="agK_c07_", dir="/tmp")
@@ -380,6 +380,42 @@ def run_case(case, seed):
             return run_batch(case, s, sib, meta, tmp)
     finally:
         shutil.rmtree(tmp, ignore_errors=True)
+
+
+def attribute_to_degenerate_k(system, NK, make_calc, extract):
+    """After a mismatch: evaluate the calculator k point by k point on the full grid and test the covariance
+    v(g k) = T_g v(k) (the library's own Result.transform) for every group element.  Returns
+    (n_degenerate_k, worst violation on k points WITHOUT an exact degeneracy, worst on degenerate ones), relative to
+    max_k |v(k)|.  A formula that is not invariant under unitary mixing inside an exactly degenerate group (band-diagonal
+    velocities, generalised derivatives) has an arbitrary value at such k points; that is gauge dependence (C04's
+    subject), and it is told apart here from a wrong transformation law, which shows up at generic k points."""
+    from wannierberri.grid import Grid
+    from wannierberri.data_K import get_data_k_class_from_system
+    dcls = get_data_k_class_from_system(system)
+    grid = Grid(system, NK=1, NKFFT=1)
+    pg = system.pointgroup
+    ks = [np.array([i / NK[0], j / NK[1], l / NK[2]]) for i in range(NK[0]) for j in range(NK[1]) for l in range(NK[2])]
+    vals, degen = {}, {}
+    for k in ks:
+        d = dcls(system, grid=grid, k_list=np.array([k]))
+        res = make_calc()(d)
+        E = np.sort(d.E_K[0])
+        degen[tuple(k)] = bool(len(E) > 1 and np.min(np.diff(E)) < 1e-8)
+        vals[tuple(k)] = res
+    scale = max([1e-300] + [float(np.abs(extract(v)).max()) for v in vals.values()])
+    worst = {False: 0.0, True: 0.0}
+    for k in ks:
+        for sym in pg.symmetries:
+            k2 = sym.transform_reduced_vector(k, system.recip_lattice)
+            k2 = np.round((k2 % 1) * np.array(NK)).astype(int) % np.array(NK)
+            k2 = tuple(k2 / np.array(NK))
+            key2 = min(vals, key=lambda q: np.abs(np.array(q) - np.array(k2)).max())
+            exp = extract(vals[tuple(k)].transform(sym))
+            got = extract(vals[key2])
+            err = float(np.abs(got - exp).max()) / scale
+            dg = degen[tuple(k)] or degen[key2]
+            worst[dg] = max(worst[dg], err)
+    return sum(degen.values()), worst[False], worst[True]
 
 
 def run_batch(case, s, sib, meta, tmp):
@@ -427,8 +463,17 @@ def run_batch(case, s, sib, meta, tmp):
             rel = float(d.max()) / scale
             obs["worst"][q] = rel
             if rel > TOL:
-                failures.append((f"irr!=full:tab:{q.split(':')[0]}",
-                                 f"{q}: per-k value differs at k={ta.kpoints[i[0]].tolist()} band={int(i[1])} comp={list(map(int, i[2:]))}: "
+                gauge, note = False, ""
+                if q in specs:
+                    cls_, kw_ = specs[q]
+                    ndeg, w_gen, w_deg = attribute_to_degenerate_k(
+                        s, case["NK"], lambda: tabulate.TabulatorAll({q: cls_(**kw_)}, mode="grid"),
+                        lambda r: r.results[q].data)
+                    gauge = ndeg > 0 and w_gen <= TOL and w_deg > TOL
+                    note = (f" [per-k covariance: {ndeg} grid points with exactly degenerate bands, worst violation "
+                            f"{w_gen:.1e} on the others, {w_deg:.1e} on them]")
+                failures.append((("irr!=full:gauge_dependent_at_degenerate_k:tab:" if gauge else "irr!=full:tab:") + q.split(':')[0],
+                                 note + f"{q}: per-k value differs at k={ta.kpoints[i[0]].tolist()} band={int(i[1])} comp={list(map(int, i[2:]))}: "
                                  f"irr={A[i]:.8g} full={B[i]:.8g} |diff|/scale={rel:.2e} scale={scale:.3g}"))
             if reduced and float(np.abs(B).max()) > 1e-6 * scale:
                 nontrivial.append((case["model"], "tab:" + q))
@@ -445,16 +490,21 @@ def run_batch(case, s, sib, meta, tmp):
             rel = d / scale
             obs["worst"][nm] = rel
             if rel > TOL:
-                failures.append((f"irr!=full:{nm.split(':')[0]}",
+                cls_, kw_ = specs[nm]
+                ndeg, w_gen, w_deg = attribute_to_degenerate_k(s, case["NK"], lambda: cls_(**kw_), lambda r: r.data)
+                gauge = ndeg > 0 and w_gen <= TOL and w_deg > TOL
+                failures.append((("irr!=full:gauge_dependent_at_degenerate_k:" if gauge else "irr!=full:") + nm.split(':')[0],
                                  f"{nm}: at index(Ef[,omega],comp)={where[0]} irr={where[1]:.8g} full={where[2]:.8g} "
-                                 f"|diff|/scale={rel:.2e} scale={scale:.3g}"))
+                                 f"|diff|/scale={rel:.2e} scale={scale:.3g} [per-k covariance v(gk)=T_g v(k): {ndeg} grid points "
+                                 f"with exactly degenerate bands, worst violation {w_gen:.1e} on the others, {w_deg:.1e} on them]"))
             if reduced and float(np.abs(b.data).max()) > 1e-6 * scale:
                 nontrivial.append((case["model"], nm))
     if failures:
         # elementary calculators before the multi-term sums that contain them (SDCT = sum of its *_sea_* / *_surf_* terms)
-        failures.sort(key=lambda f: (0 if ("_sea_" in f[0] or "_surf_" in f[0]) else 1 if not f[0].startswith("irr!=full:SDCT") else 2))
+        failures.sort(key=lambda f: (1 if "gauge_dependent" in f[0] else 0,
+                                     0 if ("_sea_" in f[0] or "_surf_" in f[0]) else 1 if "SDCT" not in f[0] else 2))
         keys = sorted({k for k, _ in failures})
-        return {"ok": False, "key": failures[0][0], "nontrivial": nontrivial,
+        return {"ok": False, "key": failures[0][0], "nontrivial": nontrivial, "obs": obs,
                 "detail": f"model={case['model']} group={meta['group_size']} NK={case['NK']} NKFFT={case['NKFFT']} "
                           f"K-points irr/full={nK['irr']}/{nK['full']}: " + " || ".join(t for _, t in failures[:4]) +
                           (f" (all failing keys in this case: {keys})" if len(keys) > 1 else "")}
@@ -502,7 +552,8 @@ def finish(tier, cases_, results):
         if isinstance(obs, dict):
             for k, v in (obs.get("worst") or {}).items():
                 ran.add(k)
-                worst = max(worst, v)
+                if v <= TOL:
+                    worst = max(worst, v)
             for k, v in (obs.get("not_runnable") or {}).items():
                 notrun.setdefault(k, set()).add(v.split(":")[0])
     never = sorted(k for k in notrun if k not in ran)
